@@ -4137,7 +4137,7 @@ class LoopNode(ActionSinkNode, ActionSourceNode):
                     continue
                 continues_on = set(transition.on_values)
                 if DFTransition.Else in continues_on:
-                    continues_on.update(accept_state.compute_foreign_else_definition(loop_start))
+                    continues_on.update(loop_start.compute_foreign_else_definition(accept_state))
                 for symbol in continues_on:
                     if isinstance(loop_start, DFProxyState):
                         restart = None
